@@ -4,6 +4,7 @@ Only property statements live here; every proof is a reference to a lemma of Lem
 statement cannot be weakened quietly to make a proof pass.
 -/
 import Verif.C08.Lemmas
+import Verif.C08.DateLemmas
 
 namespace Verif.C08
 open Verif.Py Verif.Tables
@@ -85,6 +86,64 @@ theorem castStr_formatStr (s : List Char) (h : s ≠ []) :
   cases s with
   | nil => exact absurd rfl h
   | cons c s => simp [format, cast]
+
+/-- "casting the formatted form of a … date-time (second resolution, years 1000-9999) returns the original value":
+the text `tsdb.format(':date', t)` produces is parsed back to `t` by the two date patterns, `_date_fix`
+and the `strptime` acceptance model, for every calendar-valid instant. -/
+theorem parseDate_formatDate (t : DT) (hv : t.Valid = true) : parseDate (formatDate t) = .ok t :=
+  L.parseDate_formatDate t hv
+
+theorem cast_format_date (t : DT) (hv : t.Valid = true) :
+    cast .date (format .date (.date t)) = .val (.date t) := by
+  have hne : (formatDate t).isEmpty = false := by
+    unfold formatDate
+    cases h : natDigits t.d with
+    | nil => exact absurd h (L.natDigits_ne_nil _)
+    | cons _ _ => rfl
+  simp [cast, format, hne, L.parseDate_formatDate t hv]
+
+/-- integers through the typed interface (note `format .integer none = "-1"`, the documented default). -/
+theorem cast_format_int (i : Int) : cast .integer (format .integer (.int i)) = .val (.int i) := by
+  have hne : (formatInt i).isEmpty = false := by
+    cases i with
+    | ofNat n =>
+      simp only [formatInt]
+      cases h : natDigits n with
+      | nil => exact absurd h (L.natDigits_ne_nil _)
+      | cons _ _ => rfl
+    | negSucc n => rfl
+  simp [cast, format, hne, L.castInt_formatInt i]
+
+example : (⟨2000, 2, 29, 23, 59, 59⟩ : DT).Valid = true := by decide
+example : (⟨1900, 2, 29, 0, 0, 0⟩ : DT).Valid = false := by decide
+
+/-! ## "a row object always exposes exactly the cast of its stored raw data by index, slice, name and iteration" -/
+
+/-- iteration is the cast of each stored raw datum (definition of the model, stated for the record):
+the row built from values stores `format` of each value and iteration yields `cast` of each. -/
+theorem row_iter (ts : List DType) (ns : List (List Char)) (vs : List Val) :
+    (mkRow ts ns vs).iter = List.zipWith cast ts (List.zipWith format ts vs) := rfl
+
+/-- indexing with any integer (negative indices included, out of range = IndexError) is indexing
+the iteration. -/
+theorem row_index (r : Row) (i : Int) (hl : r.types.length = r.data.length) :
+    r.getIdx i = getIndex r.iter i := L.row_getIdx r i hl
+
+/-- slicing with any start/stop/step (step 0 = ValueError) is slicing the iteration. -/
+theorem row_slice (r : Row) (sl : Slice) (hl : r.types.length = r.data.length) :
+    r.getSlice sl = Py.getSlice r.iter sl := L.row_getSlice r sl hl
+
+/-- access by name is access by the (last) index carrying that name; unknown name = KeyError. -/
+theorem row_name (r : Row) (k : List Char) :
+    r.getName k =
+      match ((List.range r.names.length).filter (fun i => r.names[i]? = some k)).getLast? with
+      | none => none
+      | some i => r.getIdx i := rfl
+
+/-- the hypothesis of `row_index`/`row_slice` holds for every row built by the constructor
+(`Row.__init__` rejects a length mismatch). -/
+theorem mkRow_wf (ts : List DType) (ns : List (List Char)) (vs : List Val) (hl : ts.length = vs.length) :
+    (mkRow ts ns vs).types.length = (mkRow ts ns vs).data.length := L.mkRow_lengths ts ns vs hl
 
 /-! ## non-vacuity and concrete instances (tests, labelled as such) -/
 
